@@ -55,6 +55,7 @@ import GraphiqModel.Proofs.LCRepair
 import GraphiqModel.Proofs.LCAssemble
 import GraphiqModel.Proofs.LCTotalR
 import GraphiqModel.Proofs.LCGates2
+import GraphiqModel.Proofs.LCTableaux
 namespace Graphiq.C09
 open Graphiq Graphiq.LC Graphiq.PRow Graphiq.Tab
 
@@ -875,5 +876,68 @@ theorem lc_check_total_and_right_unrepaired (a b : BMat) (validate : Bool) (hn :
         ∀ k, k < a.r → InSpan t.n t.n t.stab (graphGen b.f k) := by
   obtain ⟨zs, _, hc⟩ := lcCheck_of_yes a b out s hn hab ha hb e hs
   exact ⟨zs, hc validate, lc_check_gates_map_the_state a b _ ha (hc true)⟩
+
+/-! ## 8. Tableau inputs: `lc_check` on two stabilizer states
+
+  `lc_check(state1, state2)` converts both states with `state_to_graph` (property C08), runs `converter_gate_list` on the two
+  graphs, and returns `gates1 + gate_list + inversed_gates2` (`gates2` reversed, `P ↔ P_dag`).  C08 proves that `gates_i` maps
+  `state_i` onto `|graph_i⟩`; section 7 proves that `gate_list` maps `|graph1⟩` onto `|graph2⟩`; the composition
+  (Proofs/LCTableaux.lean, images of signed groups under gate lists) gives the statement for tableaux.  The assembly of the three
+  lists itself (three list operations of the Python) is compared per input by the harness oracle. -/
+
+/-- **the total gate list of `lc_check` maps the first stabilizer state exactly onto the second** (every n, every pair of
+    stabilizer tableaux on which `state_to_graph` returns — by C08 `state_to_graph_returns_iff_state`: every stabilizer state):
+    with `(g1, G1) = state_to_graph(state1)`, `(g2, G2) = state_to_graph(state2)` and `lc_check(g1, g2) = (True, L)`, running
+    `G1 ++ L ++ reversed(G2 with P ↔ P_dag)` on `state1` gives a tableau that generates exactly the signed stabilizer group of
+    `state2` -/
+theorem lc_check_on_stabilizer_states_maps_the_state (t1 t2 : STab) (hreal1 : ∀ i, i < t1.n → (t1.row i).ip = false)
+    (hreal2 : ∀ i, i < t2.n → (t2.row i).ip = false) (hn : t1.n = t2.n) (g1 g2 : BMat) (G1 G2 : List Gate)
+    (e1 : S2G.stateToGraph t1 = .ok (g1, G1)) (e2 : S2G.stateToGraph t2 = .ok (g2, G2))
+    (validate : Bool) (L : List (String × Nat)) (hL : lcCheckR g1 g2 validate = .ok (true, L)) :
+    STab.SpanEq (t1.runCircuit (G1 ++ L.map toGate ++ revCirc G2)) t2 :=
+  lc_check_tableaux t1 t2 hreal1 hreal2 hn g1 g2 G1 G2 e1 e2 validate L hL
+
+/-- and the decision on stabilizer states is the decision on their graphs: `lc_check` on the two graphs returns, and says `True`
+    exactly when `is_lc_equivalent` does on the graphs `state_to_graph` chose -/
+theorem lc_check_on_stabilizer_states_decides (t1 t2 : STab) (hreal1 : ∀ i, i < t1.n → (t1.row i).ip = false)
+    (hreal2 : ∀ i, i < t2.n → (t2.row i).ip = false) (hn : t1.n = t2.n) (g1 g2 : BMat) (G1 G2 : List Gate)
+    (e1 : S2G.stateToGraph t1 = .ok (g1, G1)) (e2 : S2G.stateToGraph t2 = .ok (g2, G2)) (validate : Bool) :
+    ∃ out, isLcEquivalentR g1 g2 .det [] = .ok out ∧
+      ((out.sol = none ∧ lcCheckR g1 g2 validate = .ok (false, [])) ∨
+       (∃ L, out.sol.isSome = true ∧ lcCheckR g1 g2 validate = .ok (true, L) ∧
+          STab.SpanEq (t1.runCircuit (G1 ++ L.map toGate ++ revCirc G2)) t2)) := by
+  have hr1 := stateToGraphWith_r _ t1 g1 G1 e1
+  have hr2 := stateToGraphWith_r _ t2 g2 G2 e2
+  obtain ⟨_, _, sym1, irr1⟩ := stateToGraphWith_sound S2G.gf2InvF t1 hreal1 g1 G1 e1
+  obtain ⟨_, _, sym2, irr2⟩ := stateToGraphWith_sound S2G.gf2InvF t2 hreal2 g2 G2 e2
+  obtain ⟨out, e, h⟩ := lc_check_total_and_right g1 g2 validate (by rw [hr1, hr2, hn])
+    (by rw [hr1]; exact ⟨sym1, irr1⟩) (by rw [hr2]; exact ⟨sym2, irr2⟩)
+  refine ⟨out, e, ?_⟩
+  rcases h with h | ⟨s, zs, hs, hc, _⟩
+  · exact Or.inl h
+  · exact Or.inr ⟨_, by rw [hs]; rfl, hc,
+      lc_check_tableaux t1 t2 hreal1 hreal2 hn g1 g2 G1 G2 e1 e2 validate _ hc⟩
+
+/-- the two-qubit graph state `|K₂⟩` and the state with generators `ZZ`, `XX` (a Hadamard on qubit 0 away) -/
+def bellS : STab := graphSTab 2 (fun i j => decide (i ≠ j))
+def ghzS : STab :=
+  { n := 2, row := fun i => if i = 0 then ⟨fun _ => false, fun _ => true, false, false⟩ else ⟨fun _ => true, fun _ => false, false, false⟩ }
+
+/-- do the models of `state_to_graph` and of `lc_check` on the two graphs answer as stated? -/
+def tableauAnswerIs (t1 t2 : STab) (b1 : String) (E1 : List Gate) (b2 : String) (E2 : List Gate)
+    (L0 : List (String × Nat)) : Bool :=
+  match S2G.stateToGraph t1, S2G.stateToGraph t2 with
+  | .ok (g1, G1), .ok (g2, G2) =>
+    match lcCheckR g1 g2 true with
+    | .ok (yes, L) => g1.bits == b1 && G1 == E1 && g2.bits == b2 && G2 == E2 && yes && L == L0
+    | .error _ => false
+  | _, _ => false
+
+set_option maxRecDepth 100000 in
+/-- non-vacuity of the hypotheses of the two theorems above (kernel-checked): `state_to_graph` returns on both states (the
+    second needs a Hadamard), both graphs are `K₂`, and `lc_check` on the graphs answers `(True, [H 0, H 1])` -/
+theorem tableau_example :
+    tableauAnswerIs bellS ghzS "0110" [] "0110" [Gate.H 1] [("H", 0), ("H", 1)] = true := by
+  decide +kernel
 
 end Graphiq.C09
